@@ -152,7 +152,8 @@ def run(repo: Repo, rep: Report, tier: str) -> None:
     _flags(repo, rep)
     _declared_hook(repo, rep)
     _speculation(repo, rep, c)
-
+    from ..core import siblings as _sib2
+    _sib2.check_own_method_tests(repo, rep, "R14.11")
 
 def _flags(repo: Repo, rep: Report) -> None:
     from .c08 import _r08_4
@@ -247,3 +248,6 @@ def _speculation(repo: Repo, rep: Report, c) -> None:
             rep.violation("R19.5", f"{M_PACK}::pack_union", "unguarded speculative call of a per-class helper in the union packer",
                           "through the codec (non-mixin) path the union packer tries `try: return <Class1 helper>(value)` for a value of Class2: "
                           "Class1's __pre_serialize__ runs on it (and the fallback then runs Class2's hook again)", form=sk)
+_ADD6 = " Borrowed: R14.11 (a subclass's hooks are compiled into its own methods)."
+EXPLANATION += _ADD6
+LEVEL_TEXT += _ADD6
